@@ -936,6 +936,54 @@ struct InflateSession {
                         return;
                 run_stream();
                 judge();
+                if (!rr.violated() && !aborted && !stopped_need_dict && plan.geti("poke"))
+                        poke();
+        }
+        // The caller keeps calling after the session is over (bytes keep arriving on a socket): the decoder must stay memory-safe and
+        // within the documented status codes, and after completion it must not produce further output.
+        void poke()
+        {
+                bool was_finished = finished;
+                if (!was_finished && final_ret >= 0)
+                        return; // the session ended waiting for more input: nothing abnormal to continue from
+                Rng g((uint64_t) plan.at("mem").geti("fill") + 4242, "poke");
+                for (int k = 0; k < 2; k++) {
+                        size_t n = 1 + (size_t) g.below(40);
+                        Slot *si = g_arena.alloc(n, place, "poke_in", 0, 1), *so = g_arena.alloc(64, PLACE_END, "poke_out", fill + 300 + k, 1);
+                        if (!si || !so)
+                                return;
+                        for (size_t i = 0; i < n; i++)
+                                si->data[i] = fed + i < bytes.size() ? bytes[fed + i] : (uint8_t) g.u64();
+                        st->next_in = si->data;
+                        st->avail_in = (uint32_t) n;
+                        st->next_out = so->data;
+                        st->avail_out = 64;
+                        int ret = 0;
+                        h.calls++;
+                        if (GUARDED(gc, ret = isal_inflate(st))) {
+                                report_fault(rr, h, gc.fi, was_finished ? "isal_inflate called again after completion" : "isal_inflate called again after an error return");
+                                return;
+                        }
+                        uint32_t produced = 64 - st->avail_out;
+                        h.rec("poke", { was_finished, ret, ret < 0 ? 0 : (int64_t) produced, st->block_state });
+                        COUNT(was_finished ? "io.call_after_completion" : "io.call_after_error");
+                        if (!g_arena.canary_ok(so) || !g_arena.canary_ok(s_state)) {
+                                rr.fail("C05.canary", "isal_inflate called after the end of the session changed bytes outside its declared buffers");
+                                return;
+                        }
+                        if (!(ret == 0 || ret == ISAL_NEED_DICT || (ret <= -1 && ret >= -6))) {
+                                rr.fail("C06.ret_undocumented", strf("isal_inflate called again after %s returned %d", was_finished ? "completion" : "an error", ret));
+                                return;
+                        }
+                        if (was_finished && ret >= 0 && produced) {
+                                rr.fail("C06.wrong_output", strf("isal_inflate called again after completion produced %u more bytes", produced));
+                                return;
+                        }
+                        // (What a call made after an error return reports is not judged: ISA-L's errors are not sticky - the decoder resumes
+                        // at the next symbol - and the property speaks about the verdict on the stream, which has been given.)
+                        g_arena.release(si);
+                        g_arena.release(so);
+                }
         }
 };
 } // namespace
@@ -956,6 +1004,7 @@ static Json gen_inflate(Rng &r0, const std::string &focus, int tier)
                 fmt = 1 + (int) r.below(2);
         p.set("os_out", r.chance(1, 6) ? (int64_t) (1 + r.logsize(200000)) : 0);
         p.set("os_sweep", (int) r.chance(1, focus == "C05" || focus == "C06" ? 6 : 20));
+        p.set("poke", (int) r.chance(1, 3));
         p.set("fmt", fmt).set("mode", focus == "C19" ? 0 : (int) r.below(4)).set("zlevel", (int) r.below(4)).set("ihb", (int) (r.chance(1, 2) ? 0 : r.chance(1, 4) ? 15 : r.chance(1, 4) ? 1 + r.below(8) : 9 + r.below(6)));
         Json src = Json::obj();
         int kind = (int) r.below(3);
